@@ -42,3 +42,13 @@ Theorem C04_unsized_failed_seek_keeps_state : forall fault root st off whence o 
   ureader_step fault root st (OpSeek off whence) = (st', OSeek (Err o)) -> st' = st.
 Proof. exact useek_error_keeps_state. Qed.
 Print Assumptions C04_unsized_failed_seek_keeps_state.
+
+(* reference-written files in the trickle layout (File/Trickle.v, compared with boxo's DAG on every run): every Seek/Read history,
+   from any consistent reader state, refines the abstract ReadSeeker over the chunks' concatenation *)
+From UV Require Import File.Builder File.BuilderProofs File.Trickle File.TrickleProofs.
+Theorem C04_reference_trickle_reader_refines : forall (W : nat) (chunks : list bytes), (1 <= W)%nat -> chunks <> [] -> (blen (concat chunks) < bound63)%N ->
+  let root := fst (trickle_layout W chunks) in
+  forall ops st, rinv (concat chunks) st ->
+    map forget_loads (reader_run nofault root st ops) = abs_run (concat chunks) (r_off st) ops.
+Proof. exact trickle_reader_refines. Qed.
+Print Assumptions C04_reference_trickle_reader_refines.
